@@ -322,22 +322,32 @@ def r4(ctx, R):
             if q.path_between(fi, w, r_):
                 R.bad(fi, w, "data is written on a path that then raises NoneReturnedError: "
                              "a failing element acquires a value")
-    for r_ in rs:
-        R.inst("_store_value: raise guarded by `value is not None` false and allow_none false")
-        ok1 = q.depends(fi, r_, lambda e: isinstance(e, ast.Compare) and q.mentions_name(e, "value")
-                        and any(isinstance(o, (ast.IsNot, ast.Is, ast.NotEq, ast.Eq)) for o in e.ops), "F") \
-            or q.depends(fi, r_, lambda e: isinstance(e, ast.Compare) and q.mentions_name(e, "value")
-                         and any(isinstance(o, (ast.Is, ast.Eq)) for o in e.ops), "T")
-        ok2 = q.depends(fi, r_, lambda e: "allow_none" in q.text(e), "F")
-        if not (ok1 and ok2):
-            R.bad(fi, r_, "NoneReturnedError raise is not guarded by (value is None and not allow_none)")
-    # a None value must not be stored unless allow_none
-    for w in ws:
-        R.inst("_store_value: `%s` guarded by value-not-None or allow_none" % norm(w))
-        g1 = q.depends(fi, w, lambda e: isinstance(e, ast.Compare) and q.mentions_name(e, "value"), "T")
-        g2 = q.depends(fi, w, lambda e: "allow_none" in q.text(e), "T")
-        if not (g1 or g2):
-            R.bad(fi, w, "data write is not guarded by `value is not None` or allow_none")
+    # truth table over (value is None, allow_none): store iff not None or allowed; raise iff None and not allowed
+    def oc_for(is_none, allowed):
+        def oc(e):
+            t = norm(e)
+            if t == "value is not None":
+                return "F" if is_none else "T"
+            if t == "value is None":
+                return "T" if is_none else "F"
+            if "allow_none" in t:
+                return "T" if allowed else "F"
+            return None
+        return oc
+    table = {}
+    for is_none in (False, True):
+        for allowed in (False, True):
+            reached = q.run_abstract(fi, oc_for(is_none, allowed))
+            stored = any(i in reached for w in ws for i in q.nodes_for(fi, w))
+            raised = any(i in reached for r_ in rs for i in q.nodes_for(fi, r_))
+            table["value_is_None=%s,allow_none=%s" % (is_none, allowed)] = {"stored": stored, "raised": raised}
+            want_raise = is_none and not allowed
+            R.inst("_store_value[value None=%s, allow_none=%s]: %s" % (is_none, allowed, "raise" if want_raise else "store"))
+            if stored == want_raise or raised != want_raise:
+                R.bad(fi, fi.node, "value %s, allow_none=%s: stored=%s raised=%s" % (
+                    "None" if is_none else "not None", allowed, stored, raised),
+                      stmt="_store_value table %s %s" % (is_none, allowed))
+    R.slot("_store_value_truth_table", table)
     for spec in ("CellsImpl.on_eval_formula",):
         f2 = ctx.func(spec)
         st = q.calls(f2, name="_store_value")
